@@ -189,12 +189,10 @@ def run_parse(cx):
               b"/a:b[k='v'", b"/a:b[k='v]", b"/a:b]", b"/a:b[[", b"", b" ", b"/", b"//", b"/a:b/", b"/a:b or", b"/a:b or c", b"/a:b/or", b"/a:or",
               b"/or:a", b"/a:b/child::c", b"/a:b/text()", b"/a:b/node", b"/a:b[k='v'][1]", b"/a:b[1][k='v']", b"/a:b[.='a'][.='b']"]
     cases = list(dict.fromkeys(cases))
-    # `*` directly followed by `:`: the repaired lexer (fix 1c38454, Generated.XpConsts.starNoPrefix) reads `*` as a NameTest on its own, the
-    # lexer model of Path/Token.lean still reads `*:name` as one NameTest (OPEN: follow the switch; LemmasToken proofs need the case split).
-    # Counted, not compared; printed paths never contain `*`.
-    star = [c for c in cases if b"*:" in c]
-    cx.dist["parse:outside-fragment(star-prefix)"] += len(star)
-    cases = [c for c in cases if b"*:" not in c]
+    # `*:name` / `*:*` (F352: `*` is never a prefix; Path/Token.lean follows Generated.XpConsts.starNoPrefix): compared like everything else
+    cases += [b"/*:a", b"/a:b/*:*", b"/*:*", b"*:a", b"/a:b[*:k='v']", b"/a:*:b", b"/a:b/*", b"/* :a"]
+    cases = list(dict.fromkeys(cases))
+    cx.dist["parse:star-colon-inputs"] += sum(1 for c in cases if b"*:" in c)
     lines = ["%d path parse %s" % (i, hexs(c)) for i, c in enumerate(cases)]
     cx.rule("parse: all sequences of %d path tokens up to length %d, random sequences over %d tokens, grammar-directed near-valid paths; "
             "non-trivial = distinct string" % (len(pg.TOKENS_SMALL), cx.n(4, 5), len(pg.TOKENS_SMALL) + len(pg.TOKENS_MORE)))
